@@ -1,4 +1,4 @@
-CONSTANTS IB = 2  PB = 2  NF = 14  Leafs = {20}  Sizes = {0, 1, 4, 5, 8}  FailPoints = {0, 1, 2, 3, 4}  MaxOps = 2  Bug = ""  Emit = TRUE
+CONSTANTS IB = 2  PB = 2  NF = 14  Leafs = {20}  Sizes = {0, 1, 4, 5, 8}  FailPoints = {0, 1, 2, 4}  MaxOps = 2  Bug = ""  Emit = TRUE
   OpKinds = {"map", "unmap", "maptemp", "mapregion", "identity", "switch", "poke"}
   PokeBits = {5, 6, 63}
   Props = {"C04"}
